@@ -548,6 +548,18 @@ impl Property for C08 {
         }
         out
     }
+    /// libFuzzer input: limit setting, layout bits, anchor percentages, decoration script, tree
+    fn fuzz_decode(data: &[u8]) -> Option<(&'static str, Case, bool)> {
+        let mut b = engine::Bytes::new(data);
+        let lim = b.pick(&[Lim::Default, Lim::Nodes(0), Lim::Nodes(-1), Lim::Replay(0), Lim::Replay(-1), Lim::PerAnchor(0), Lim::PerAnchor(-1), Lim::Stack(0), Lim::Stack(1)]);
+        let lb = b.u16() as u32;
+        let (a, al) = b.pick(&[(25u16, 30u16), (40, 35), (15, 45)]);
+        let script = gdoc::script_from_bytes(&mut b, 24);
+        let t = gdoc::tree_from_bytes(&mut b, 4);
+        let c = Case { fam: Fam::Doc { doc: gdoc::decorate(&t, &script, a, al, 0), layout: Layout::from_bits(lb) }, lim };
+        let nt = c.lim != Lim::Default;
+        Some(("fuzz-generated-docs", c, nt))
+    }
     fn generate(ctx: &mut Ctx<Self>) {
         let thorough = ctx.tier == engine::Tier::Thorough;
         let lims = [Lim::Default, Lim::Nodes(0), Lim::Nodes(-1), Lim::Replay(0), Lim::Replay(-1), Lim::PerAnchor(0), Lim::PerAnchor(-1), Lim::Stack(0), Lim::Stack(1)];
